@@ -6,10 +6,10 @@ import (
 	"math/rand"
 
 	"github.com/Trendyol/go-dcp/config"
-	"github.com/Trendyol/go-dcp/membership"
-	"github.com/asaskevich/EventBus"
 	"github.com/Trendyol/go-dcp/helpers"
+	"github.com/Trendyol/go-dcp/membership"
 	"github.com/Trendyol/go-dcp/stream"
+	"github.com/asaskevich/EventBus"
 
 	"verif/harness/drv"
 	"verif/harness/hx"
@@ -21,7 +21,7 @@ import (
 
 type c09Params struct {
 	NFrom, NTo int
-	Disc       [][2]int // (N,T) pairs for the discovery path: every member is evaluated
+	Disc       [][2]int   // (N,T) pairs for the discovery path: every member is evaluated
 	Seqs       [][][2]int // membership sequences (member,total) driven through ONE long-lived dynamic discovery instance
 	SeqN       []int      // vBucket count per sequence
 }
